@@ -8,8 +8,25 @@ NA={
 }
 PENDING="no function of this property's cone carries a contract whose obligations the solvers discharge within the quick budget; see DESIGN.md section 0"
 LEVEL_NOTES={
- "C01":"Proved: sorted-array kernels, every container x container pairing (new-result, in-place, cardinality/predicate forms), popcount helpers, conversions. NOT machine-checked: the Bitmap-level two-pointer drivers except where listed in the evidence, the induction from per-chunk to whole-bitmap results, the equality of cached cardinalities with the number of members of the view.",
- "C02":"Proved: per-chunk point/range mutation of the three kinds, chunk-table edits, the Bitmap-level mutators listed in the evidence. NOT machine-checked: the induction over operation histories; Bitmap-level mutators not listed.",
+ "C01":"Proved: sorted-array kernels, every container x container pairing (new-result, in-place, cardinality and predicate forms), popcount helpers, representation conversions, and the Bitmap-level drivers listed in the evidence. NOT machine-checked: drivers not listed, the induction from per-chunk to whole-bitmap results, the equality of cached cardinalities with the number of members of the view.",
+ "C02":"Proved: per-chunk point/range mutation of the three kinds, bit-range helpers, chunk-table edits (insert/remove/replace, copy-on-write access), the Bitmap-level mutators listed in the evidence. NOT machine-checked: the induction over operation histories; Bitmap-level mutators not listed.",
+ "C03":"Proved: scalar queries of each container kind against the view, chunk-table lookups, the Bitmap-level queries listed in the evidence. NOT machine-checked: 'chunk-level count = number of members of the view' (stated, meta-fact), Checksum.",
+ "C04":"Proved: the nine chunk-level iterator types as cursors over the container view (next/peekNext/advanceIfNeeded/hasNext), a common interface contract they refine, the Bitmap-level iterators listed in the evidence. NOT machine-checked: callbacks (Iterate/Values/Ranges take function values, which are abstract), NextMany paths listed as bounded/undecided.",
+ "C05":"Proved: size formulas, writers against a ghost model writer (bytes appended, count returned on success, errors propagated), readers on arbitrary byte sources (safety), byte sources. NOT machine-checked: the decode(encode(b)) == b composition at the Bitmap level (the encoders' layout clauses and the decoders' structure clauses are proved separately), base64.",
+ "C06":"Proved: layout clauses of the writers (cookie, counts, run-flag bits, descriptive and offset headers, little-endian payloads) and structure clauses of the reader. NOT machine-checked: an independent reading of the format specification (the spec predicates in the contracts are ours).",
+ "C07":"Proved: frame obligations (arguments of binary operations are never written), freshness/ownership postconditions of every container operation, the copy-on-write discipline of the chunk table and the drivers listed in the evidence. BOUNDED: aggregates (FastOr..ParHeapOr, 64-bit ParOr) by small-scope enumeration. NOT machine-checked: the global no-unflagged-sharing invariant as an induction over histories.",
+ "C08":"Proved: decoders flag every container aliasing the caller's bytes copy-on-write and own their tables; byte sources never write their buffer; writable access clones flagged containers. NOT machine-checked: 'every later derived bitmap' (history induction).",
+ "C09":"Proved: validators characterise well-formedness; every constructive container operation ensures well-formedness and the size normal form (array <= 4096, bitmap > 4096, run size rule) where stated in the evidence. NOT machine-checked: closure over all public operations (drivers not listed), frozen round trip.",
+ "C10":"Proved: decoder safety with no precondition on the bytes (every index/slice/nil/division/allocation obligation of the decoding paths), validators. NOT machine-checked: 'every proper prefix is rejected' as a statement over prefixes (follows from the exact consumption clauses, not separately proved), base64.",
+ "C11":"Proved: lazy union kernels and repair per container pairing and the sequential helpers listed in the evidence. BOUNDED: FastOr/FastAnd/HeapOr/HeapXor/ParOr/ParAnd/ParHeapOr/AndAny by small-scope enumeration (goroutines, channels, container/heap are outside the subset).",
+ "C13":"Proved: frozen reader (safety on arbitrary bytes, structure, count-field semantics, copy-on-write flags) and the writers listed in the evidence. NOT machine-checked: byte-level agreement of the three writers beyond the listed size/position clauses.",
+ "C14":"Proved: size formulas per representation, cheapest-representation choice, the lemmas bounding the size of chunks in normal form. NOT machine-checked: that every public operation leaves chunks in normal form (history statement; the per-operation normal-form clauses are under C09).",
+ "C15":"Proved: neighbour kernels per container kind and the Bitmap-level functions listed in the evidence. KNOWN FINDINGS: the absent-value family (A-12) is defective and recorded.",
+ "C16":"Proved: per-kind offset kernels, dense conversions and drivers listed in the evidence.",
+ "C17":"Proved: 64-bit chunk table and the Bitmap methods listed in the evidence, several over ASSUMED (trusted) contracts of the 32-bit API where no proved one exists (listed under assumptions). BOUNDED: ParOr/FastOr/FastAnd by small-scope enumeration.",
+ "C18":"Proved: 64-bit decoders (safety on arbitrary bytes, structure of the decoded table), validators. NOT machine-checked: round trip composition.",
+ "C19":"Proved: structure-level contracts of the index updates listed in the evidence, over ASSUMED contracts of the bitmap API. BOUNDED: goroutine-based functions by small-scope enumeration where a stand-in is listed. KNOWN FINDINGS: (un)marshal defects recorded.",
+ "C20":"Proved: structure-level contracts of the comparison helpers listed in the evidence. BOUNDED: parallel query functions by small-scope enumeration where a stand-in is listed.",
 }
 hooks=subprocess.run('git -C /repo log --format=%H -- "*zz_*_verif.go"',shell=True,capture_output=True,text=True).stdout.split()
 spec.pop('_lemmas',None)
